@@ -5,7 +5,9 @@ import Aiorpcx.Facts.C15
 
 Model: `Aiorpcx.C15.step` (`Model.lean`).  All theorems are over **every** finite sequence of
 events send / pause / resume / link lost / time passes / cancel a sender / graceful close (with or
-without unsent data, i.e. `is_closing()` true with `connection_lost` still outstanding), with any
+without unsent data, i.e. `is_closing()` true with `connection_lost` still outstanding) / batch
+(sends, pauses and resumes performed back to back before the loop runs again: a sender that is
+already runnable when `resume_writing()` sets the event runs before the woken writers), with any
 number of concurrent senders and any high-water script (the transport may re-pause inside any
 write), from the initial state of the tree as repaired for F14 (`fixed = true`).
 
@@ -102,25 +104,60 @@ theorem whole_once (d : Int) (hd : 0 < d) (es : List Event) :
   let h := minv_run es (init d) (minv_init d hd)
   ⟨h.wireNodup, h.wireUsed, h.disjoint⟩
 
-/-- **Order**: the wire carries the messages in the order in which they were handed to a send
-(`used` lists every message id once, in the order of the send calls): blocked senders are served
-first-in first-out, also across re-pauses, time-outs and cancellations of others, and nobody
-overtakes a waiting sender.  In particular the messages one task sends one after another keep
-their order: if `a` is before `b` on the wire then `a` was sent before `b`. -/
-theorem in_order (d : Int) (es : List Event) :
+/-- **Order (what the property text asks)**: messages one task sends one after another keep
+their order - for every event sequence, batches included: once the send of `a` is over (`a` was
+handed to a send and is not waiting any more) a message `b` that is sent later never gets onto
+the wire in front of `a`.  `used` never repeats a message id. -/
+theorem task_order (d : Int) (hd : 0 < d) (es es' : List Event) (a b : Nat)
+    (ha : a ∈ (run (init d) es).1.used) (hdone : a ∉ msgs (run (init d) es).1.blocked)
+    (hb : b ∉ (run (init d) es).1.used) :
+    ¬ [b, a].Sublist (run (run (init d) es).1 es').1.wire ∧
+    (run (run (init d) es).1 es').1.used.Nodup :=
+  ⟨task_order_aux _ es' a b (minv_run es (init d) (minv_init d hd)) ha hdone hb,
+   used_nodup_run es' _ (used_nodup_run es (init d) (by simp [init]))⟩
+
+/-- non-vacuity: sender 1 sends 1, then (after it went out) 2, which has to wait; both are on the
+wire in that order although another sender's message went out in between -/
+example :
+    let t := (run (init 20) [.send 1 1 [true], .send 2 5 []]).1
+    1 ∈ t.used ∧ 1 ∉ msgs t.blocked ∧ 2 ∉ t.used ∧
+    (run t [.send 1 2 [], .batch [.send 3 3, .resume] [], .resume []]).1.wire = [1, 3, 5, 2] := by
+  decide
+
+/-- **Arrival order**, as long as every event is followed by running the loop to idle (no
+batch): the wire carries the messages in the order in which they were handed to a send: blocked
+senders are served first-in first-out, also across re-pauses, time-outs and cancellations of
+others, and nobody overtakes a waiting sender.  (Stronger than the property text; it is what
+`asyncio.Event` gives at quiescent points.) -/
+theorem in_order (d : Int) (es : List Event) (hs : ∀ e ∈ es, e.simple = true) :
     (run (init d) es).1.wire.Sublist (run (init d) es).1.used ∧
-    (run (init d) es).1.used.Nodup ∧
     (∀ a b, [a, b].Sublist (run (init d) es).1.wire → [a, b].Sublist (run (init d) es).1.used) := by
   have h : OInv (run (init d) es).1 :=
-    oinv_run es (init d) rfl (finv_init d) (by simp [OInv, init, msgs])
+    oinv_run es (init d) hs rfl (finv_init d) (by simp [OInv, init, msgs])
   have hw := List.Sublist.trans (List.sublist_append_left _ _) h
-  exact ⟨hw, used_nodup_run es (init d) (by simp [init]), fun a b hab => List.Sublist.trans hab hw⟩
+  exact ⟨hw, fun a b hab => List.Sublist.trans hab hw⟩
 
 /-- three senders queue up, the transport re-pauses inside the first write, the second sender
 is cancelled, the third one is written after the next resume: order of the send calls -/
 example :
     (run (init 20) [.pause, .send 1 1 [], .send 2 2 [], .send 3 3 [], .resume [true], .cancel 2,
       .send 4 4 [], .resume []]).1.wire = [1, 3, 4] := by decide
+
+/-- ... and why `in_order` needs "no batch": sender 2 is already runnable when the buffer
+drains, runs before the woken sender 1, its write re-fills the buffer (flag), sender 1 checks
+again and keeps waiting - nothing is written while paused, but 2 is on the wire before 1 -/
+example :
+    let r := run (init 20) [.pause, .send 1 1 [], .batch [.send 2 2, .resume] [true], .resume []]
+    r.1.wire = [2, 1] ∧ r.1.used = [1, 2] ∧ r.1.writes = [(2, false), (1, false)] ∧
+    r.2 = [[Obs.pauseReading], [Obs.blocked 1 1],
+           [Obs.resumeReading, Obs.wrote 2 false, Obs.pauseReading, Obs.sendOk 2 2 0],
+           [Obs.resumeReading, Obs.wrote 1 false, Obs.sendOk 1 1 0]] := by decide
+
+/-- the buffer fills again before the woken writers have run (`batch [resume, pause]`): they all
+check again, nobody writes, the waiting list and its order are as before -/
+example :
+    let t := (run (init 20) [.pause, .send 1 1 [], .send 2 2 [], .batch [.resume, .pause] []]).1
+    t.wire = [] ∧ msgs t.blocked = [1, 2] ∧ t.canSend = false ∧ t.reading = false := by decide
 
 /-- **A cancelled sender's message is written whole or not at all** - in the model: a sender
 that is cancelled while blocked has written nothing (`whole_once`: a waiting message is not on
@@ -252,6 +289,14 @@ theorem facts_close :
   ⟨by decide, by decide⟩
 
 /-! ## F14 (pinned tree; repaired by a `fix:` commit) -/
+
+/-- the same pinned `write()` (no re-check after the wake-up) in the batch scenario: the writer
+that was woken by the resume writes although a sender that ran before it has re-filled the
+buffer -/
+theorem nothing_written_while_paused_fails_pinned_batch :
+    ((run { fixed := false, maxDelay := 20 }
+      [.pause, .send 1 1 [], .batch [.send 2 2, .resume] [true]]).1.writes) =
+      [(2, false), (1, true)] := by decide
 
 /-- with the pinned single `await self._can_send.wait()` three blocked senders are all released
 by one `resume_writing`; the transport re-pauses inside the first write; the second and third
